@@ -12,12 +12,19 @@ def multi(x):
     return len(x["calls"]) >= 2 and pc.has_demotion_or_multi(x)
 
 
+def multi_fault(x):
+    return len(x["calls"]) >= 2 and x["expect"]["st"] == "err"
+
+
 def run(tier, rep):
     stride = 4 if tier == "quick" else 1
 
     def relation(rep, inst, cases):
         pc.run_relation(rep, "c06-algebra", inst, cases, stride=stride if inst == "children" else 1)
 
+    # "a failed extension reports an error rather than a partial result": the fault histories whose fault is in an extend
+    pc.check(rep, "C06", tier, ["errors"], {"verdict"}, None, 0, invariants=["TypeOK", "Verdict"],
+             case_filter=lambda m: m.get("ncalls", 1) >= 2 and m.get("expected", {}).get("st") == "err", nontrivial=multi_fault)
     pc.check(rep, "C06", tier, ["docs3", "children"], {"schema", "unsound"}, "C06",
              sessions=500 if tier == "quick" else 6000, nontrivial=multi, rule=RULE,
              invariants=["TypeOK", "Exact", "Monotone", "NoOpOnEmptyDoc", "AlgebraInv", "ResultWF"],
